@@ -25,8 +25,7 @@ def is_lfs_envelope(value: bytes | None) -> bool:
         return False
     if value[:1] != b"{":
         return False
-    prefix = value[:50].decode("utf-8", errors="ignore")
-    return "\"kfs_lfs\"" in prefix
+    return b"\"kfs_lfs\"" in value[:50]
 
 
 def decode_envelope(value: bytes) -> LfsEnvelope:
